@@ -52,7 +52,7 @@ func (l *lifoQueue) Pop() pool.Task {
 
 func init() {
 	register(&Workload{ID: "C09", Gen: c09Gen, New: func() interface{} { return &c09Plan{} }, Run: c09Run, Shrink: c09Shrink,
-		Budget: 400_000})
+		Budget: 1_500_000})
 }
 
 func c09Gen(r *simrt.RNG, tier string) interface{} {
@@ -78,6 +78,9 @@ func c09Gen(r *simrt.RNG, tier string) interface{} {
 			if r.Bool(0.25) {
 				op.Kind = "burst"
 				op.N = 2 + r.Intn(4)
+				if r.Bool(0.06) {
+					op.N = 200 + r.Intn(500) // a backlog of hundreds of tasks
+				}
 			}
 			if r.Bool(0.2) {
 				op.Fail = true
@@ -170,6 +173,14 @@ func c09Shrink(pi interface{}) []interface{} {
 			if op != (c09Op{Kind: "add"}) {
 				q := clone()
 				q.Submitters[i][j] = c09Op{Kind: "add"}
+				out = append(out, q)
+			}
+			if op.Kind == "burst" && op.N > 2 {
+				q := clone()
+				q.Submitters[i][j].N = op.N / 2
+				out = append(out, q)
+				q = clone()
+				q.Submitters[i][j].N = op.N - 1
 				out = append(out, q)
 			}
 		}
